@@ -1459,7 +1459,8 @@ class MSgate(Channel):
 
         s = np.sqrt(sf.hbar / 2)
         ancillae_val = backend.mb_squeeze_single_shot(*reg, r, phi, r_anc, eta_anc)
-        return ancillae_val / s
+        # the backend reports the outcome in units of hbar = 2 (cf. MeasureHomodyne._apply)
+        return ancillae_val * s
 
     def merge(self, other):
         # the composition of two measurement-based squeezing operations is not a
